@@ -129,6 +129,13 @@ def check(run):
                         fz = {"op": "fuzzy", "f": f, "t": world.rand_term(rng), "maxdist": 0, "prefix": 0, "b4": 4}
                         aq = {"op": rng.choice(["and", "or"]), "kids": [fz, world.rand_query(rng, 0, ops=NOFUZZY)], "b4": 4} \
                             if rng.random() < 0.6 else fz
+                        if rng.random() < 0.4:
+                            # two expanding clauses that differ in one attribute only (a one-letter word: its
+                            # neighbours at distance 1 are the same with and without transpositions)
+                            a1 = {"op": "fuzzy", "f": f, "t": [rng.randrange(1, 3)], "maxdist": 1, "prefix": 0, "b4": 4}
+                            a2 = dict(a1, prefix=1) if rng.random() < 0.6 else dict(a1, maxdist=0)
+                            kids = [a1, a2] if rng.random() < 0.5 else [a2, a1]
+                            aq = {"op": rng.choice(["and", "or", "dismax"]), "kids": kids, "b4": 4}
                     elif qi % 6 == 3 and rng.random() < 0.6:
                         aq = world.rand_nested_query(rng)       # parent / child queries (wrap a query and a parent set)
                     aq2 = world.rand_query(rng, rng.randrange(0, 2), ops=NOFUZZY)
